@@ -82,10 +82,51 @@ fn gen_orphans(r: &mut Rng, seed: u64, idx: u64) -> Plan {
     }
 }
 
+/// Dozens of clients in a row that leave while their handler runs, then a
+/// client that stays: whatever a disconnect leaves behind must not add up.
+fn gen_disconnect_storm(r: &mut Rng, seed: u64, idx: u64) -> Plan {
+    let mode = if r.chance(2, 3) { Mode::Cancel } else { Mode::Detached };
+    let n = r.usize_in(40, 90);
+    let mut conns = Vec::new();
+    let mut nonce = 1u64;
+    for i in 0..n {
+        let mut c = blank_conn(2000 + i as u16);
+        c.start_ms = i as u64 * r.range(5, 30);
+        let w = WorkReq { nonce, steps: r.range(2, 3) as u32, step_ms: r.range(200, 800), panic_at: 0, resp_bytes: 10, body: None, chunked: None };
+        nonce += 1;
+        c.steps.push(Step::Send { data: Blob(w.bytes()), completes: Some(0) });
+        c.steps.push(Step::Sleep { ms: r.range(20, 100) });
+        c.steps.push(if r.chance(1, 2) { Step::Close } else { Step::Reset });
+        c.reqs.push(w.plan());
+        conns.push(c);
+    }
+    let last = conns.iter().map(|c| c.start_ms).max().unwrap_or(0);
+    let mut b = blank_conn(1999);
+    b.start_ms = last + r.range(200, 5_000);
+    let w = WorkReq { nonce, steps: 1, step_ms: 10, panic_at: 0, resp_bytes: 10, body: None, chunked: None };
+    b.steps.push(Step::Send { data: Blob(w.bytes()), completes: Some(0) });
+    b.steps.push(Step::AwaitResponses { count: 1, max_ms: AWAIT_MS });
+    b.reqs.push(w.plan());
+    conns.push(b);
+    Plan {
+        property: "C16".into(),
+        seed: mix(seed, idx),
+        server: ServerPlan { mode, body_limit: 1024, api: ApiKind::Work, rt_override: None, tls: false },
+        conns,
+        shutdown: None,
+        accept_errs: vec![],
+        final_health: true,
+        note: format!("random idx={idx} {n} clients leave mid-handler, then one stays"),
+    }
+}
+
 pub fn gen_random(seed: u64, idx: u64) -> Plan {
     let mut r = Rng::derive(mix(seed, idx), "c16-random");
     if r.chance(1, 12) {
         return gen_orphans(&mut r, seed, idx);
+    }
+    if r.chance(1, 40) {
+        return gen_disconnect_storm(&mut r, seed, idx);
     }
     let mode = if r.chance(1, 2) { Mode::Cancel } else { Mode::Detached };
     let nconns = *r.pick(&[1usize, 2, 2, 3, 3, 4, 5, 6, 8]);
